@@ -78,6 +78,9 @@ def run_translator(tables):
             broken.append("translator: " + line.strip())
     if rc != 0 and not broken:
         broken.append("translator exited with status %d" % rc)
+    # The driver imports every Gen table: refresh the others too, so that it is built against the current source; a table of
+    # another property that cannot be extracted keeps its last version and is that property's business, not this one's.
+    sh([sys.executable, os.path.join(ROOT, "translator", "extract.py"), REPO, os.path.join(LEAN, "SlicecVerif", "Gen"), "--others"] + tables)
     return ext, broken
 
 
